@@ -119,15 +119,22 @@ def classify(js, stdout, units):
     the obligations discharged / refuted, covers, known findings, solver time."""
     results = {}
     by_name = {}
+    oom = set()
     if js:
         for r in js.get("verification_results", {}).get("results", []):
             by_name[r["harness_id"]] = r
     cbmc = {}
     if js:
         for c in js.get("cbmc", []):
-            cbmc[c["harness_id"]] = c.get("cbmc_stats", {})
+            cbmc[c["harness_id"]] = c.get("cbmc_stats") or {}
     stubs = stubs_applied(stdout)
     touts = timed_out(stdout)
+    if js:
+        for e in js.get("error_details", []):
+            if e.get("exit_status") == "timeout":
+                touts.add(e["harness_id"])
+            elif e.get("exit_status") not in (None, "properties_failed", "success") and e.get("has_errors"):
+                oom.add(e["harness_id"] + " [" + str(e.get("exit_status")) + "]")
     for u in units:
         for h in u.harnesses:
             suffix = f"::{u.modname}::{h['name']}"
@@ -145,7 +152,7 @@ def classify(js, stdout, units):
             r = by_name[full[0]]
             entry["stubs"] = stubs.get(full[0], [])
             entry["wall_s"] = r.get("duration_ms", 0) / 1000.0
-            st = cbmc.get(full[0], {})
+            st = cbmc.get(full[0]) or {}
             entry["solver_s"] = st.get("runtime_decision_procedure_s")
             entry["symex_s"] = st.get("runtime_symex_s")
             checks = r.get("checks", [])
@@ -164,6 +171,20 @@ def classify(js, stdout, units):
                     else:
                         entry["covers_unsat"].append(f"{desc} [{status}]")
                     continue
+                # Kani function contracts: the ensures clause is reported as an assertion whose description is
+                # the closure text, the frame as `assigns` checks; both belong to the harness's contract obligation
+                if h.get("contract") and (desc.startswith("|") or cat == "assigns"):
+                    name = h["contract"]
+                    if status == "Success":
+                        if desc.startswith("|") and name not in entry["obligations_ok"]:
+                            entry["obligations_ok"].append(name)
+                    elif status == "Failure":
+                        if name not in entry["obligations_failed"]:
+                            entry["obligations_failed"].append(name)
+                        entry.setdefault("contract_detail", []).append(f"{cat}: {desc[:200]}")
+                    else:
+                        entry["undetermined"].append(f"{name} [{status}] {cat}")
+                    continue
                 if desc.startswith("OBL:"):
                     name = desc[4:]
                     if status == "Success":
@@ -181,6 +202,10 @@ def classify(js, stdout, units):
                 elif status not in ("Success", "Satisfied", "Unreachable", "Covered", "Uncovered"):
                     # Undetermined safety checks (consequence of an earlier failure)
                     pass
+            if h.get("contract"):
+                entry["obligations_ok"] = [o for o in entry["obligations_ok"] if o not in entry["obligations_failed"]]
+                if h["contract"] not in entry["obligations_ok"] + entry["obligations_failed"] and not entry["undetermined"]:
+                    entry["undetermined"].append(h["contract"] + " [no ensures check was generated]")
             if full[0] in touts or r.get("status") == "Timeout":
                 entry["status"] = "timeout"
             elif entry["obligations_failed"] or entry["safety_failed"]:
